@@ -102,6 +102,66 @@ def build():
                    ' symbol_size == self.intermediate_symbols.symbol_size,'
                    ' result@.len() == i as int,'
                    ' forall |k: int| 0 <= k < i as int ==> packet_is(#[trigger] result@[k], repair_packet_spec(*self, start_repair_symbol_id as int + k)),'})
+    u.fn('src/encoder.rs', 'source_packets', impl='impl SourceBlockEncoder', ret='r', external_body=True,
+         requires=['enc_wf(*self)'],
+         ensures=['r@.len() == self.source_symbols@.len()',
+                  'forall |i: int| 0 <= i < r@.len() ==> packet_is(#[trigger] r@[i], source_packet_spec(*self, i))'])
+    u.trust('SourceBlockEncoder::source_packets (iterator map/collect): external; assumed to return K packets, packet i = (block number, ESI i, source symbol i)')
     u.raw('}')
+    # ---- the per-object packet list (C18): block by block in order, K source packets then the requested repair packets
+    u.struct('src/base.rs', 'ObjectTransmissionInformation')
+    u.struct('src/encoder.rs', 'Encoder')
+    u.raw("""
+pub open spec fn source_packet_spec(e: SourceBlockEncoder, i: int) -> (PayloadId, Seq<u8>) {
+    (PayloadId { source_block_number: e.source_block_id, encoding_symbol_id: i as u32 }, e.source_symbols@[i].value@)
+}
+pub open spec fn block_packets_ok(list: Seq<EncodingPacket>, at: int, e: SourceBlockEncoder, r: int) -> bool {
+    let k = e.source_symbols@.len() as int;
+    &&& forall |i: int| 0 <= i < k ==> packet_is(#[trigger] list[at + i], source_packet_spec(e, i))
+    &&& forall |i: int| 0 <= i < r ==> packet_is(#[trigger] list[at + k + i], repair_packet_spec(e, i))
+}
+// offset of block b's packets in the list
+pub open spec fn block_at(blocks: Seq<SourceBlockEncoder>, r: int, b: nat) -> int
+    decreases b,
+{ if b == 0 { 0 } else { block_at(blocks, r, (b - 1) as nat) + blocks[b - 1].source_symbols@.len() + r } }
+#[verifier::external_body]
+fn verif_extend_packets(v: &mut Vec<EncodingPacket>, b: Vec<EncodingPacket>) ensures final(v)@ == old(v)@ + b@ { unimplemented!() }
+""", label='packet list spec')
+    u.trust('Vec::extend(Vec<EncodingPacket>) appends the packets in order (rule S2 model function)')
+    u.raw('impl Encoder {')
+    u.fn('src/encoder.rs', 'get_encoded_packets', impl='impl Encoder', ret='packets',
+         requires=['forall |b: int| 0 <= b < self.blocks@.len() ==> enc_wf(#[trigger] self.blocks@[b]) && self.blocks@[b].source_symbols@.len() + repair_packets_per_block as int <= 16777216'],
+         ensures=['packets@.len() == block_at(self.blocks@, repair_packets_per_block as int, self.blocks@.len())',
+                  'forall |b: int| 0 <= b < self.blocks@.len() ==> block_packets_ok(packets@, block_at(self.blocks@, repair_packets_per_block as int, b as nat), #[trigger] self.blocks@[b], repair_packets_per_block as int)'],
+         opt_subst=[('packets.extend(encoder.source_packets());', 'verif_extend_packets(&mut packets, encoder.source_packets());', 'S2-extend-vec'),
+                    ('packets.extend(encoder.repair_packets(0, repair_packets_per_block));', 'verif_extend_packets(&mut packets, encoder.repair_packets(0, repair_packets_per_block));', 'S2-extend-vec'),
+                    ('let mut packets = vec![];', 'let mut packets: Vec<EncodingPacket> = vec![];', 'type-annotation')],
+         resubst=[(r'for encoder in self\.blocks\.iter\(\) \{', 'for encoder in verif_it: self.blocks.iter() {', 'name-iterator')],
+         loops={0: {'spec': ('invariant forall |b: int| 0 <= b < self.blocks@.len() ==> enc_wf(#[trigger] self.blocks@[b]) && self.blocks@[b].source_symbols@.len() + repair_packets_per_block as int <= 16777216,'
+                             ' verif_it.index@ <= self.blocks@.len(), packets@.len() == block_at(self.blocks@, repair_packets_per_block as int, verif_it.index@ as nat),'
+                             ' forall |b: int| 0 <= b < verif_it.index@ ==> block_packets_ok(packets@, block_at(self.blocks@, repair_packets_per_block as int, b as nat), #[trigger] self.blocks@[b], repair_packets_per_block as int),'),
+                    'body_top': 'let ghost verif_prev = packets@; let ghost bi = verif_it.index@;',
+                    'body_bottom': ('proof { let r = repair_packets_per_block as int; assert(self.blocks@[bi] == *encoder);'
+                                    ' assert forall |b: int| 0 <= b < bi + 1 implies block_packets_ok(packets@, block_at(self.blocks@, r, b as nat), #[trigger] self.blocks@[b], r) by {'
+                                    '   if b < bi { assert(block_packets_ok(verif_prev, block_at(self.blocks@, r, b as nat), self.blocks@[b], r)); lemma_block_at_mono(self.blocks@, r, b as nat, bi as nat);'
+                                    '     let k = self.blocks@[b].source_symbols@.len() as int; let at = block_at(self.blocks@, r, b as nat);'
+                                    '     assert forall |i: int| 0 <= i < k implies packet_is(#[trigger] packets@[at + i], source_packet_spec(self.blocks@[b], i)) by { assert(packets@[at + i] == verif_prev[at + i]); }'
+                                    '     assert forall |i: int| 0 <= i < r implies packet_is(#[trigger] packets@[at + k + i], repair_packet_spec(self.blocks@[b], i)) by { assert(packets@[at + k + i] == verif_prev[at + k + i]); } } } }')}})
+    u.raw("""}
+pub proof fn lemma_block_at_mono(blocks: Seq<SourceBlockEncoder>, r: int, a: nat, b: nat)
+    requires a < b, b <= blocks.len(), r >= 0,
+    ensures block_at(blocks, r, a) + blocks[a as int].source_symbols@.len() + r <= block_at(blocks, r, b), block_at(blocks, r, a) >= 0,
+    decreases b,
+{
+    if a + 1 < b { lemma_block_at_mono(blocks, r, a, (b - 1) as nat); }
+    lemma_block_at_nonneg(blocks, r, a);
+}
+pub proof fn lemma_block_at_nonneg(blocks: Seq<SourceBlockEncoder>, r: int, a: nat)
+    requires a <= blocks.len(), r >= 0,
+    ensures block_at(blocks, r, a) >= 0,
+    decreases a,
+{ if a > 0 { lemma_block_at_nonneg(blocks, r, (a - 1) as nat); } }
+""", label='packet list lemmas')
     u.raw('} // verus!')
     return u
+
